@@ -77,7 +77,7 @@ def act_to_cmd(a):
     if n == "CompoundScalar": return "CompoundScalar %d %s" % (t, a["w"])
     if n == "Probe": return "Probe %d %s" % (t, a["op"])
     if n == "BinaryRead": return "BinaryRead %s %d %d" % (a["op"], x, y)
-    if n == "Factory": return "Factory %d %s %d %d" % (t, a["op"], a["d"], a["c"])
+    if n == "Factory": return "Factory %d %s %d %d %d" % (t, a["op"], a["d"], a["c"], a.get("fail", 0))
     if n == "AssignExpr":
         return "AssignExpr %d %s %s %d %d %d %d %d %d %d" % (t, a["w"], a["op"], x, y, 1 if a["arv"] else 0, 1 if a["brv"] else 0,
                                                             a["c"], a["fail"], a.get("flags", 0))
@@ -336,14 +336,14 @@ def random_cmd(rng, st, dims, faults, ops, guards=False):
         i = rng.randrange(0, d) if kind != "generator" else rng.randrange(0, max(1, d * d))
         if guards and rng.random() < 0.3:
             i = d * d + rng.randrange(0, 3) if kind == "generator" else d + 1 + rng.randrange(0, 2)
-        return "Factory %d %s %d %d" % (v(), kind, d, i)
+        return "Factory %d %s %d %d %d" % (v(), kind, d, i, fail)
     op = rng.choice(ops)
     a = v(); b = a if op in ARITY1 else v()
     arv = 1 if (op in ELEMENTWISE and rng.random() < 0.35) else 0
     brv = 1 if (op in ("add", "elementwise") and rng.random() < 0.3) else 0
     w = rng.choice(["=", "=", "+=", "-=", "ctor"])
     k = rng.choice([1, 2, 3, -1])
-    flags = rng.choice([0, 0, 1, 2, 3, 7])
+    flags = rng.choice([0, 0, 1, 2, 3, 4, 5, 7])
     return "AssignExpr %d %s %s %d %d %d %d %d %d %d" % (v(), w, op, a, b, arv, brv, k, fail, flags)
 
 
